@@ -2,6 +2,7 @@ package proxy
 
 import (
 	"bytes"
+	"errors"
 	gkm "github.com/go-kit/kit/metrics"
 	"io"
 	"log"
@@ -20,6 +21,17 @@ type dialFunc func(network, address string) (net.Conn, error)
 // wsSwitchingProtocols is how the response to a successful
 // websocket handshake starts.
 var wsSwitchingProtocols = []byte("HTTP/1.1 101")
+
+var errNoHalfClose = errors.New("connection does not support half-close")
+
+// closeWrite shuts down the writing side of c so that the peer
+// sees the end of the stream but can still send data.
+func closeWrite(c net.Conn) error {
+	if cw, ok := c.(interface{ CloseWrite() error }); ok {
+		return cw.CloseWrite()
+	}
+	return errNoHalfClose
+}
 
 // newWSHandler returns an HTTP handler which forwards data between
 // an incoming and outgoing websocket connection. It checks whether
@@ -100,16 +112,27 @@ func newWSHandler(host string, dial dialFunc, conn gkm.Gauge) http.Handler {
 
 		out.SetReadDeadline(time.Time{})
 
+		// When one side ends its stream pass the end on by closing
+		// only the writing side of the other connection and keep the
+		// opposite direction going, e.g. a client which shuts down
+		// its writing side after sending still gets the reply. An
+		// error in either direction ends the tunnel right away.
 		errc := make(chan error, 2)
-		cp := func(dst io.Writer, src io.Reader) {
+		cp := func(dst net.Conn, src io.Reader) {
 			_, err := io.Copy(dst, src)
+			if err == nil {
+				err = closeWrite(dst)
+			}
 			errc <- err
 		}
 
 		go cp(out, inbuf.Reader)
 		go cp(in, out)
 		err = <-errc
-		if err != nil && err != io.EOF {
+		if err == nil {
+			err = <-errc
+		}
+		if err != nil && err != io.EOF && err != errNoHalfClose {
 			log.Printf("[INFO] WS error for %s. %s", r.URL, err)
 		}
 	})
